@@ -15,7 +15,7 @@ def main():
     from specs import grammar; grammar.write('/verif/specs/gen_parse.py')
     specs = SpecLib(['/verif/specs'])
     eng = Engine(repo, specs)
-    names = sys.argv[2:] or [q for q, c in CONTRACTS.items() if not c.inline and not c.trusted]
+    names = sys.argv[2:] or [q for q, c in CONTRACTS.items() if not c.inline and not c.trusted and not c.extra.get('inline_only') and not c.extra.get('bounded')]
     jobs = []
     for qn in names:
         c = CONTRACTS[qn]
